@@ -87,6 +87,23 @@ class C01(Property):
                 cases.append(Case("enc " + h, prop=False, tags=("enc-" + tag,)))
             elif i % 3 == 1:
                 cases.append(Case("dec9 " + h, prop=False, tags=("dec9-" + tag,)))
+        # inputs that are long along ONE axis (hundreds of thousands of lines before the first section, inside a section, of
+        # section headers; one line of megabytes; hundreds of thousands of tokens in one record): recursion in place of a loop,
+        # or anything worse than linear, only shows at this scale (seed C01-j: one stack frame per preamble line)
+        big = 600000 if tier == "quick" else 2000000
+        head = b"osu file format v14\n"
+        for tag, data in (
+            ("blank-preamble", head + b"\n" * big + b"[General]\nMode: 1\n"),
+            ("comment-preamble", b"// c\n" * (big // 2) + b"[Metadata]\nTitle:x\n"),
+            ("junk-preamble-no-version", b"junk\n" * (big // 2) + b"[Difficulty]\nCircleSize:4\n"),
+            ("blank-lines-in-section", head + b"[General]\n" + b"\n" * big + b"Mode: 2\n"),
+            ("rejected-lines-in-section", head + b"[HitObjects]\n" + b"x\n" * (big // 2) + b"1,2,3,1,0\n"),
+            ("repeated-headers", head + b"[Events]\n[TimingPoints]\n" * (big // 8) + b"[General]\nMode: 3\n"),
+            ("one-long-line", head + b"[Metadata]\nTitle:" + b"a" * (2 * big) + b"\n"),
+            ("many-bookmarks", head + b"[Editor]\nBookmarks: " + b",".join(b"%d" % i for i in range(big // 6)) + b"\n"),
+            ("many-curve-points", head + b"[HitObjects]\n0,0,0,2,0,B|" + b"|".join(b"%d:%d" % (i % 500, (i * 7) % 380) for i in range(big // 60)) + b",1,100\n"),
+        ):
+            cases.append(Case("total " + hexs(data), corr=False, tags=("scale-" + tag,)))
         for d in READER_CORNERS:
             cases.append(Case("total " + hexs(d), corr=False, tags=("reader-corner",)))
             cases.append(Case("dec9 " + hexs(d), prop=False, tags=("reader-corner",)))
